@@ -25,7 +25,7 @@ import (
 func init() {
 	fw.Register(&fw.Prop{
 		ID: "C13",
-		Rule: "executions of Mine over versions {v1, v2} x workers {1,2,3,4,8,16,32,64} x target class {every batch qualifies (all workers find at once), easy, medium, unattainable in time} x cancellation {never, before the call, inside the watcher's first Done() call, after a seeded delay 0..5 ms, around the expected find time, from 8 goroutines at once} x context kind {context.Background (nil Done channel), harness context whose channel is never closed, harness cancellable context, context.WithCancel} x GOMAXPROCS {1,2,4,16} x CPU hogs on/off x delay injected inside Done() x optionally a second goroutine mining concurrently on the same *Worker. Events CALL, DONE-CALLED, CANCEL-ISSUED, RETURN are stamped from one atomic counter at the client boundary. Monitors: M1 result (nonce meets the target under Score, or the version's ErrCancelled and only after CANCEL-ISSUED); M2 bounded return (30 s after cancellation, goroutine dump classifies deadlock / still hashing); M3 goroutine accounting (no goroutine with a pkg/pow frame 2 s after return); M4 race detector (race build: reports with a pkg/pow frame are violations). " +
+		Rule: "executions of Mine over versions {v1, v2} x workers {1,2,3,4,8,16,32,64} x target class {every batch qualifies (all workers find at once), easy, medium, unattainable in time} x cancellation {never, before the call, inside the watcher's first Done() call, after a seeded delay 0..5 ms, around the expected find time, from 8 goroutines at once} x context kind {context.Background (nil Done channel), harness context whose channel is never closed, harness cancellable context, context.WithCancel} x GOMAXPROCS {1,2,4,16} x CPU hogs on/off x delay injected inside Done() x optionally a second goroutine mining concurrently on the same *Worker. Events CALL, DONE-CALLED, CANCEL-ISSUED, RETURN are stamped from one atomic counter at the client boundary. Monitors: M1 result (nonce meets the target under Score, or the version's ErrCancelled and only after CANCEL-ISSUED); M2 bounded return (30 s after cancellation, goroutine dump classifies deadlock / still hashing); M3 goroutine accounting (2 s after return: no goroutine with a pkg/pow frame, and no goroutine that did not exist before the call unless the harness or the runtime started it — e.g. a context watcher the standard library started on behalf of the call); M4 race detector (race build: reports with a pkg/pow frame are violations). " +
 			"Non-trivial: distinct (version, workers, target class, cancel mode, context kind, GOMAXPROCS) tuples.",
 		Assumptions: []string{"Go offers no controlled scheduler: interleavings are sampled (race build, GOMAXPROCS, hogs, delays), not enumerated", "30 s / 2 s are watchdog bounds four orders of magnitude above the expected latencies", "the package's own Score decides whether a nonce meets the target (Score itself is judged by C11/C12)"},
 		Builds:      []string{"race", "default", "386"},
@@ -142,6 +142,55 @@ func powGoroutines() (int, string) {
 			if len(sample) < 6 {
 				sample = append(sample, blk)
 			}
+		}
+	}
+	return cnt, strings.Join(sample, "\n\n")
+}
+
+// goroutineIDs returns the ids of all live goroutines.
+func goroutineIDs() map[string]bool {
+	ids := map[string]bool{}
+	for _, blk := range strings.Split(allStacks(), "\n\n") {
+		if f := strings.Fields(blk); len(f) >= 2 && f[0] == "goroutine" {
+			ids[f[1]] = true
+		}
+	}
+	return ids
+}
+
+func allStacks() string {
+	buf := make([]byte, 1<<20)
+	for {
+		n := runtime.Stack(buf, true)
+		if n < len(buf) {
+			return string(buf[:n])
+		}
+		buf = make([]byte, 2*len(buf))
+	}
+}
+
+// foreignGoroutines returns the goroutines that did not exist at the time of the snapshot and were not
+// started by the harness or the runtime: whatever Mine, or the standard library on its behalf (for instance
+// a context watcher registered by the call), has left behind.
+func foreignGoroutines(before map[string]bool) (int, string) {
+	cnt := 0
+	var sample []string
+	for _, blk := range strings.Split(allStacks(), "\n\n") {
+		f := strings.Fields(blk)
+		if len(f) < 2 || f[0] != "goroutine" || before[f[1]] {
+			continue
+		}
+		i := strings.LastIndex(blk, "created by ")
+		if i < 0 {
+			continue // the main goroutine
+		}
+		creator := blk[i+len("created by "):]
+		if strings.HasPrefix(creator, "verif/harness/") || strings.HasPrefix(creator, "runtime.") || strings.HasPrefix(creator, "runtime/") || strings.HasPrefix(creator, "main.") {
+			continue
+		}
+		cnt++
+		if len(sample) < 6 {
+			sample = append(sample, blk)
 		}
 	}
 	return cnt, strings.Join(sample, "\n\n")
@@ -313,6 +362,7 @@ func judge(class string, key []byte, o *fw.Obs) {
 			secondDone <- bad
 		}()
 	}
+	before := goroutineIDs()
 	stamp(&evCall)
 	go func() {
 		var res result
@@ -488,8 +538,16 @@ wait:
 	polls := 0
 	var cnt int
 	var dump string
+	count := func() (int, string) {
+		n, d := powGoroutines()
+		if n == 0 {
+			// goroutines the call left behind outside pkg/pow (started by the standard library on its behalf)
+			n, d = foreignGoroutines(before)
+		}
+		return n, d
+	}
 	for {
-		cnt, dump = powGoroutines()
+		cnt, dump = count()
 		if cnt == 0 || polls >= 200 {
 			break
 		}
@@ -500,7 +558,7 @@ wait:
 	if cnt != 0 {
 		// confirm once more
 		time.Sleep(500 * time.Millisecond)
-		cnt, dump = powGoroutines()
+		cnt, dump = count()
 	}
 	if cnt != 0 {
 		poisoned = true
